@@ -174,9 +174,10 @@ static void dump_state(void)
 	printf("|");
 	for (int i = 1; i <= NT; i++) {
 		dispatch_timer_source_refs_t dt = &T[i];
-		printf(" %d %u %" PRIu64 " %" PRIu64 " %" PRIu64 " %" PRIu64 " %u %u %d %d", (int)_dispatch_unote_armed(dt),
+		printf(" %d %u %" PRIu64 " %" PRIu64 " %" PRIu64 " %" PRIu64 " %u %u %d %d %d", (int)_dispatch_unote_armed(dt),
 				(unsigned)dt->du_ident, dt->dt_timer.target, dt->dt_timer.deadline, dt->dt_timer.interval,
 				(uint64_t)dt->ds_pending_data, dt->dt_heap_entry[0], dt->dt_heap_entry[1], dt->dt_pending_config != NULL,
+				(int)_dispatch_unote_registered(dt),   // du_state != DU_STATE_UNREGISTERED
 				(int)(OWN[i].do_ref_cnt - REF0));
 	}
 	printf("\n");
